@@ -213,7 +213,47 @@ fn fixture_self_test() -> usize {
     n
 }
 
+pub fn replay(path: &str) -> i32 {
+    let s = std::fs::read_to_string(path).expect("MACHINERY: cannot read replay file");
+    let v: Value = serde_json::from_str(&s).expect("MACHINERY: replay JSON");
+    let r = if v.get("replay").is_some() { &v["replay"] } else { &v };
+    let Some(hist_idx) = r["history"].as_array() else {
+        println!("this C05 artefact (long history / real rounds) is reproduced by re-running the check: ./check C05 --tier quick");
+        return 2;
+    };
+    let first_ttl = r["first_ttl"].as_u64().unwrap() as u8;
+    let max_samples = r["max_samples"].as_u64().unwrap() as usize;
+    let al = alphabet(first_ttl, r["hops"].as_u64().unwrap_or(2) as usize);
+    let mut st = State::new(StateConfig { max_samples, max_flows: 1 });
+    let mut hist = vec![];
+    let mut bad = vec![];
+    for (i, x) in hist_idx.iter().enumerate() {
+        let sh = &al[x.as_u64().unwrap() as usize];
+        println!("round {i}: {:?}", sh.outs);
+        let rr = stateexp::build(sh, i, (i as u16) * 16);
+        stateexp::apply(&mut st, &rr);
+        hist.push(rr);
+        bad = oracle(&st, &hist, max_samples);
+    }
+    for h in st.hops() {
+        println!("  hop {}: sent {} recv {} avg {:.4} stddev {:.4} jitter {:?} javg {:.4} jinta {:.4} samples {:?}", h.ttl(), h.total_sent(), h.total_recv(), h.avg_ms(), h.stddev_ms(), h.jitter_ms(), h.javg_ms(), h.jinta(), h.samples());
+    }
+    for (k, d) in &bad {
+        println!("DISCREPANCY {k}: {d}");
+    }
+    if bad.is_empty() {
+        println!("replay: property held");
+        0
+    } else {
+        println!("VIOLATION property=C05 replay={path}");
+        1
+    }
+}
+
 pub fn run(args: &Args) -> i32 {
+    if let Some(path) = &args.replay {
+        return replay(path);
+    }
     let tier = args.tier;
     let mut rep = Report::new("C05", tier, "model_checking");
     let fixture_cmps = fixture_self_test();
